@@ -137,7 +137,10 @@ pub assume_specification [str::trim_end] (s: &str) -> (r: &str) ensures r@ == tr
         ft, _, _ = X.fn(bsrc, fn_name, within=r'^impl RegExpBuilder \{')
         named = re.findall(r'panic!\("\{\}", (\w+)\)', ft)
         named = [n for n in named if n in consts]
-        if len(named) != 1: raise X.LostAnchor('builder.rs::%s: exactly one panic!("{}", <MESSAGE CONSTANT>) expected, found %s' % (fn_name, named))
+        if len(named) == 0:        # no documented panic in this function any more: nothing to compare; the clauses about WHEN it panics decide (and the label goes missing from the registry)
+            b.log.add('R7', 'builder.rs::' + fn_name, 'no panic!("{}", <MESSAGE CONSTANT>)', 'lemma about the message skipped')
+            continue
+        if len(named) != 1: raise X.LostAnchor('builder.rs::%s: at most one panic!("{}", <MESSAGE CONSTANT>) expected, found %s' % (fn_name, named))
         b.log.add('R7', 'builder.rs::' + fn_name, 'panic!("{}", %s)' % named[0], 'lemma: that constant is the documented message %s' % expected)
         b.lemma('builder.documented_panic_message@%s' % fn_name, ['C07', 'C12'] if fn_name == 'from_file' else ['C07'],
                 'pub proof fn lemma_panic_message_%s()\n    ensures %s@ == %s@\n{\n    reveal_strlit(%s); reveal_strlit(%s);\n}' % (fn_name, named[0], expected, consts[named[0]], consts[expected]))
